@@ -592,6 +592,10 @@ def check(program: Program, run: Run) -> None:
                                 f"{f.qualname}: the inline branch emits the alias {ca} but the parameterised branch {cb}: the two renderings differ by more than the placeholder", where=f.loc(), rule="R4")
     _placeholders(program, run)
 
+    # ---- the mechanism keeps no state between renderings (shared rule, see families.inherit_history_dependence)
+    from ..families import inherit_history_dependence
+    run.rule("history: no function of this property's mechanism writes object / class / parameterizer state while rendering or memoises on a copied object (inherited from C02 and C01)")
+    inherit_history_dependence(program, run, "C04", r"^(ValueWrapper|MySQLValueWrapper|SQLLiteValueWrapper|Array|Parameterizer|Parameter)\.", "the value list or the placeholder of a term depends on earlier renderings of the same object / parameterizer, so the parameterised form of a reused term no longer matches its inline form")
 
 def _param_reached_with_node(program: Program, c, attr: str) -> bool:
     from ..symex import Evaluator, ListV, One
